@@ -202,6 +202,22 @@ CLAIMED = {
          "(guaranteed by that goroutine's own contract), the interface-level transitioner contract, immutability of a transition command's "
          "event/source/destination, os/exec and syscall behaviour.",
          "DESIGN.md §6 C17"),
+ "C15": ("Proof obligations on the structure-building code: iteratorRangeFor.GetRange yields the decimal numbers begin..end in order (empty when "
+         "end < begin); expandTemplate generates the j-th child from locals {var: ran[j]} and puts it at position j (sequentially by append, "
+         "concurrently into slot j), installs as many children as the range has elements, and a failing generation ends the expansion with an "
+         "error; iteratorRole/aggregatorRole.ProcessTemplates: expansion/own-template errors other than 'role disabled' end the load, a disabled "
+         "aggregator drops its children before anything is processed for them, every child is attached to its parent before being processed, "
+         "sequentially the first failing child ends the load with its error, the filter keeps exactly the children found enabled, appended in "
+         "order, and an aggregator left empty disables itself; the stage callback turns a disabled role after STAGE0 into RoleDisabledError; "
+         "goroutine frame obligations for the three concurrent branches: each goroutine writes its own slot only and the shared error only under "
+         "a lock (a genuine defect found here - a failing child's error overwritten by a sibling's nil, the load succeeding with a partial "
+         "tree - repaired by a fix: commit); roleBase.copy (what an iterator makes per element) owns its channel declarations and constraints.",
+         "NOT APPLICABLE PART: 'the same workflow template with the same variables always yields the same role tree' as far as it depends on "
+         "YAML decoding (reflection) and on the template/expression engine (third-party VM): determinism of those, and the values they "
+         "substitute, are outside any contract here. In the concurrent branches 'an error in any child fails the load' is decided per goroutine "
+         "(a failing child files its error under the lock) but the multierror library's ErrorOrNil is not modelled. iteratorRangeExpr (JSON "
+         "range) is not under contract. strconv.Atoi/Itoa and viper getters are assumed.",
+         "DESIGN.md §6 C15"),
 }
 
 NOT_APPLICABLE = {
